@@ -17,14 +17,20 @@ import time
 import traceback
 
 VERIF = os.path.dirname(os.path.dirname(os.path.abspath(__file__)))
-REPO = os.environ.get("MATHCAT_REPO", "/repo")
+# The registered checks always run against /repo and write below /verif.  For experiments (seeded changes applied to a scratch
+# worktree, several people working at once) MATHCAT_REPO points the whole framework at another checkout and VERIF_SCRATCH moves
+# every output (target dirs, work files, evidence, replay files) out of /verif.
+REPO = os.path.abspath(os.environ.get("MATHCAT_REPO", "/repo"))
 RULES = os.path.join(REPO, "Rules")
-HARNESS = os.path.join(VERIF, "harness")
-TARGET = os.path.join(VERIF, "target")
-WORK = os.path.join(VERIF, "work")
-EVIDENCE = os.path.join(VERIF, "evidence")
-REPLAY = os.path.join(VERIF, "replay")
+HARNESS_SRC = os.path.join(VERIF, "harness")
+_OUT = os.path.abspath(os.environ["VERIF_SCRATCH"]) if os.environ.get("VERIF_SCRATCH") else VERIF
+HARNESS = HARNESS_SRC if (REPO == "/repo" and _OUT == VERIF) else os.path.join(_OUT, "harness")
+TARGET = os.path.join(_OUT, "target")
+WORK = os.path.join(_OUT, "work")
+EVIDENCE = os.path.join(_OUT, "evidence")
+REPLAY = os.path.join(_OUT, "replay")
 FINDINGS_FILE = os.path.join(VERIF, "known_findings.json")
+FINDINGS_DIR = os.path.join(VERIF, "known_findings.d")
 NPROC = min(16, os.cpu_count() or 4)
 
 TRIPLE = "x86_64-unknown-linux-gnu"
@@ -67,6 +73,8 @@ def build_driver(flavour="native", quiet=True):
     lock_dst = os.path.join(HARNESS, "Cargo.lock")
     with open(lock_path, "w") as lock:
         fcntl.flock(lock, fcntl.LOCK_EX)
+        if HARNESS != HARNESS_SRC:
+            _materialise_harness()
         if not os.path.exists(lock_dst) and os.path.exists(lock_src):
             shutil.copy(lock_src, lock_dst)
         t0 = time.time()
@@ -80,6 +88,23 @@ def build_driver(flavour="native", quiet=True):
     if not os.path.exists(path):
         raise Inconclusive("driver binary missing: " + path)
     return path
+
+
+def _materialise_harness():
+    """copy of the driver crate whose path dependency points at MATHCAT_REPO (scratch runs only)"""
+    os.makedirs(os.path.join(HARNESS, "src"), exist_ok=True)
+    os.makedirs(os.path.join(HARNESS, ".cargo"), exist_ok=True)
+    for rel in ("src/main.rs", "src/json.rs", ".cargo/config.toml"):
+        src, dst = os.path.join(HARNESS_SRC, rel), os.path.join(HARNESS, rel)
+        data = open(src, "rb").read()
+        if not os.path.exists(dst) or open(dst, "rb").read() != data:
+            with open(dst, "wb") as f:
+                f.write(data)
+    toml = open(os.path.join(HARNESS_SRC, "Cargo.toml")).read().replace('path = "/repo"', 'path = "%s"' % REPO)
+    dst = os.path.join(HARNESS, "Cargo.toml")
+    if not os.path.exists(dst) or open(dst).read() != toml:
+        with open(dst, "w") as f:
+            f.write(toml)
 
 
 # --------------------------------------------------------------------------------------------
@@ -248,6 +273,53 @@ class Driver:
         self.close()
 
 
+class Session:
+    """A driver configured with a fixed set of preferences; restarted transparently when it dies.
+    prefs is an ordered dict of preference name -> value applied after set_rules_dir."""
+
+    def __init__(self, prefs=None, flavour="native", rules_dir=None, **driver_kw):
+        self.prefs = dict(prefs or {})
+        self.flavour = flavour
+        self.rules_dir = rules_dir
+        self.driver_kw = driver_kw
+        self.d = None
+        self.restarts = 0
+
+    def ensure(self):
+        if self.d is None or not self.d.alive():
+            if self.d is not None:
+                self.d.close()
+                self.restarts += 1
+            self.d = Driver(self.flavour, **self.driver_kw)
+            self.d.init(self.prefs, rules_dir=self.rules_dir)
+        return self.d
+
+    def batch(self, ops, timeout=None):
+        """returns the list of results, or None when the driver died / timed out (the session restarts on next use);
+        the exception is kept in self.last_failure"""
+        try:
+            return self.ensure().batch(ops, timeout=timeout)
+        except (DriverDied, DriverTimeout) as e:
+            self.last_failure = e
+            self.close()
+            return None
+
+    def call(self, op, *args, timeout=None):
+        r = self.batch([(op,) + tuple(args)], timeout=timeout)
+        return None if r is None else r[0]
+
+    def close(self):
+        if self.d is not None:
+            self.d.close()
+            self.d = None
+
+    def __enter__(self):
+        return self
+
+    def __exit__(self, *a):
+        self.close()
+
+
 def init_ops(prefs=None, rules_dir=None):
     ops = [("set_rules_dir", rules_dir or RULES)]
     for k, v in (prefs or {}).items():
@@ -301,12 +373,16 @@ def violation(kind, sig, witness, detail=""):
 
 
 def load_findings(prop):
-    if not os.path.exists(FINDINGS_FILE):
-        return [], []
-    with open(FINDINGS_FILE) as f:
-        data = json.load(f)
-    opened = [e for e in data.get("findings", []) if e.get("property") == prop and not e.get("fixed")]
-    fixed = [e for e in data.get("findings", []) if e.get("property") == prop and e.get("fixed")]
+    """known_findings.json plus known_findings.d/*.json (all committed, never written at run time)"""
+    entries = []
+    files = [FINDINGS_FILE] if os.path.exists(FINDINGS_FILE) else []
+    if os.path.isdir(FINDINGS_DIR):
+        files += [os.path.join(FINDINGS_DIR, f) for f in sorted(os.listdir(FINDINGS_DIR)) if f.endswith(".json")]
+    for path in files:
+        with open(path) as f:
+            entries.extend(json.load(f).get("findings", []))
+    opened = [e for e in entries if e.get("property") == prop and not e.get("fixed")]
+    fixed = [e for e in entries if e.get("property") == prop and e.get("fixed")]
     return opened, fixed
 
 
